@@ -8,6 +8,7 @@ package codon
 // verif:bound C18 compromise clause: one amino acid with 2 (quick) / 2..3 (thorough) synonymous codons, weights of both tables enumerated over 0..3 (quick) / 0..5 with 2 codons and 0..2 with 3 codons (thorough) with at least one positive weight per table, cut-off a symbolic real in [-1, 2]
 // verif:bound C18 composition clause: compromise of two mini tables (weights enumerated 0..3 | 0..4 with 2 codons and 0..3 with 3 codons, cut-off in {0, 0.2, 0.5, 1}) handed to Optimize: an error when no codon survives, otherwise the emitted codon has both shares at or above the cut-off
 // verif:assume C18 compromise: the shares int(float64(w)/float64(t)*10000) are computed concretely with real float64 arithmetic (weights are concrete on each path); only the cut-off is symbolic and int(10000*cutOff) is abstracted to real arithmetic with truncation (rounding of that product is outside the claim)
+// verif:bound C18 compromise-after-reweighting clause: two mini tables (weights 0..2) combined, the first re-weighted in place from one of three alanine sequences and combined again: equal to combining fresh tables holding the same weights (cut-off 0, 0.2, 0.5); everything enumerated, executed by the engine without a solver query
 // verif:bound C18 outside the claim: floating-point rounding of 10000*cutOff; tables re-weighted from long random sequences; fully symbolic weights in the compromise
 
 func c18Table(id int, tag string) (Table, map[string]int) {
@@ -132,6 +133,48 @@ func Harness_C18_Compromise() {
 		below, above := mustZero, mustMean
 		vCover("C18 a codon removed by the cut-off", vAnd(below, w1[i] > 0 && w2[i] > 0))
 		vCover("C18 a codon kept with a positive cut-off", vAnd(above, cut > 0))
+	}
+}
+
+// the compromise depends on the weights the tables hold now, not on what the same storage held
+// when it was combined before
+func Harness_C18_CompromiseAfterReweighting() {
+	k := 2 + vChoice(vTier(1, 2))
+	w1 := make([]int, k)
+	w2 := make([]int, k)
+	t1, t2 := 0, 0
+	for i := 0; i < k; i++ {
+		w1[i] = vChoice(3)
+		w2[i] = vChoice(3)
+		t1 += w1[i]
+		t2 += w2[i]
+	}
+	if t1 == 0 || t2 == 0 {
+		vAssume(false)
+	}
+	cut := []float64{0, 0.2, 0.5}[vChoice(3)]
+	a, b := c18Mini(w1), c18Mini(w2)
+	_, err := CompromiseCodonTable(a, b, cut)
+	vAssert(err == nil, "cutoff-accepted")
+	seq := []string{"GCTGCTGCC", "GCCGCC", "GCAGCTGCT"}[vChoice(3)]
+	a = a.OptimizeTable(seq) // re-weighted in place: same storage, new weights
+	var now []int
+	total := 0
+	for _, c := range a.AminoAcids[0].Codons {
+		now = append(now, c.Weight)
+		total += c.Weight
+	}
+	if total == 0 {
+		vAssume(false)
+	}
+	got, err2 := CompromiseCodonTable(a, b, cut)
+	want, err3 := CompromiseCodonTable(c18Mini(now), c18Mini(w2), cut) // the same weights in fresh storage
+	vAssert(err2 == nil && err3 == nil, "cutoff-accepted")
+	if err2 != nil || err3 != nil {
+		return
+	}
+	for i := 0; i < k; i++ {
+		vAssert(got.AminoAcids[0].Codons[i].Weight == want.AminoAcids[0].Codons[i].Weight, "compromise-depends-on-the-current-weights-only")
 	}
 }
 
